@@ -42,6 +42,26 @@ var (
 	nilLists   = map[string][]string{"int": {"Lin", "Lnil"}, "float": {"Lnil"}, "string": {"Lsn", "Lnil"}, "bool": {"Lbn", "Lnil"}}
 )
 
+// ownPaths are whole-expression paths in vuego's own syntax that the expression library would
+// read differently (a hyphen as a subtraction) or not at all (a numeric dot step). They are
+// never operands, only the whole expression. dotIndex: only the agreement between positions is
+// asserted for a numeric dot step (docs write items[0]).
+var ownPaths = []string{
+	"cta-text", "zero-count", "empty-label", "is-on",
+	"m.first-name", "m.item-count", "m.sub-map.deep-key", "m.sub-map.n", `m["first-name"]`, `m['item-count']`, `m["sub-map"].n`, `m["sub-map"]["deep-key"]`, `m['sub-map'].deep-key`,
+	"rows[0].b-c", "rows[1].b-c", "rows[1].id",
+	"xs.0", "xs.2", "ss.1", "bs.0", "bs.1", "us.0.admin", "us.1.name", "us.0.age", "rs.0.Ok", "rows.0.b-c", "rows.1.b-c", "rows.1.id", "fs.0",
+}
+
+func dotIndex(path string) bool {
+	for _, st := range strings.Split(path, ".")[1:] {
+		if st != "" && st[0] >= '0' && st[0] <= '9' {
+			return true
+		}
+	}
+	return false
+}
+
 var (
 	blankPaths  = []string{"sp", "sp2", "spl", "spt"}
 	blankLits   = []string{"a b", "a  b", "a   b", " a b", "  a b", "a b ", "a b  ", " a  b", "a  b ", "a\tb"}
@@ -109,8 +129,13 @@ func envOf(id int) map[string]any {
 		"t": r.t, "u": r.u, "off": false,
 		"big": int64(1234567),
 		"m": map[string]any{"k": r.k, "name": r.name, "ok": r.ok, "rate": r.rate,
-			"inner": map[string]any{"x": r.x, "s": r.deep}},
-		"xs": r.xs, "fs": r.fs, "ss": r.ss, "bs": []bool{r.sok, !r.sok},
+			"inner": map[string]any{"x": r.x, "s": r.deep},
+			// hyphenated keys (only vuego's own path walker reads m.first-name as a path)
+			"first-name": r.who, "item-count": r.z + r.k, "sub-map": map[string]any{"deep-key": r.deep, "n": r.inx}},
+		// hyphenated root names (docs/components.md: {{ cta-text }}), truthy and falsy
+		"cta-text": r.name, "zero-count": r.inx, "empty-label": r.deep, "is-on": r.adm,
+		"rows": []map[string]any{{"b-c": r.who, "id": r.uage}, {"b-c": r.deep, "id": r.inx}},
+		"xs":   r.xs, "fs": r.fs, "ss": r.ss, "bs": []bool{r.sok, !r.sok},
 		"st": Rec{Name: r.who, Age: r.age, Ok: r.sok, Score: r.score, In: Inner{X: r.inx, S: r.deep + "in"}},
 		"us": []map[string]any{
 			{"name": r.name + "0", "age": r.uage, "admin": r.adm},
@@ -140,7 +165,7 @@ func resolve(env map[string]any, path string) (any, bool) {
 	i := 0
 	id := func() string {
 		j := i
-		for j < len(path) && (path[j] == '_' || path[j] >= '0' && path[j] <= '9' || path[j] >= 'a' && path[j] <= 'z' || path[j] >= 'A' && path[j] <= 'Z') {
+		for j < len(path) && (path[j] == '_' || path[j] == '-' || path[j] >= '0' && path[j] <= '9' || path[j] >= 'a' && path[j] <= 'z' || path[j] >= 'A' && path[j] <= 'Z') {
 			j++
 		}
 		s := path[i:j]
